@@ -10,6 +10,7 @@ from omegaconf import DictConfig
 from experimaestro.core.objects import Config
 import fasteners
 import threading
+import time
 import operator
 import os.path
 from watchdog.events import FileSystemEventHandler
@@ -144,18 +145,25 @@ class TokenFile:
                 if not pidpath.is_file():
                     logger.debug("Job already finished (no PID file)")
                 else:
-                    s = ""
-                    while s == "":
+                    # The file is filled right after its creation; if it stays
+                    # empty, the scheduler that created it died before writing
+                    s = pidpath.read_text()
+                    deadline = time.time() + 1.0
+                    while s == "" and time.time() < deadline:
+                        time.sleep(0.01)
                         s = pidpath.read_text()
 
-                    logger.info("Loading job watcher from definition")
-                    from experimaestro.connectors import Process
+                    if s == "":
+                        logger.warning("Empty PID file %s: no process", pidpath)
+                    else:
+                        logger.info("Loading job watcher from definition")
+                        from experimaestro.connectors import Process
 
-                    # FIXME: not always localhost...
-                    from experimaestro.connectors.local import LocalConnector
+                        # FIXME: not always localhost...
+                        from experimaestro.connectors.local import LocalConnector
 
-                    connector = LocalConnector.instance()
-                    process = Process.fromDefinition(connector, json.loads(s))
+                        connector = LocalConnector.instance()
+                        process = Process.fromDefinition(connector, json.loads(s))
 
                 if process is None:
                     # The job is not running, and cannot be started while we
